@@ -52,6 +52,34 @@ func init() {
 	extSchemas["(*regexp.Regexp).FindSubmatch"] = schemaFindSubmatch
 	extSchemas["(*regexp.Regexp).Match"] = schemaRegexpMatch
 	extSchemas["(*regexp.Regexp).MatchString"] = schemaRegexpMatch
+	extSchemas["reflect.TypeOf"] = func(x *Exec, st *State, fn *ssa.Function, args []Val, c *ssa.CallCommon) Val {
+		iv, ok := args[0].(IfaceVal)
+		if !ok || !iv.Tag.IsConst() {
+			x.fail("reflect.TypeOf of a value whose dynamic type is not statically known")
+		}
+		t := x.typeByID[int(iv.Tag.IVal.Int64())]
+		if t == nil {
+			x.fail("reflect.TypeOf(nil)")
+		}
+		return IfaceVal{Tag: x.o.Int(-1), Pay: map[int]Val{-1: OpaqueVal{What: "reflect.Type"}}, Sym: "", RT: t}
+	}
+	invokeSchemas["reflect.Type.Kind"] = func(x *Exec, st *State, recv Val, args []Val, c *ssa.CallCommon) Val {
+		iv, ok := recv.(IfaceVal)
+		if !ok || iv.RT == nil {
+			x.fail("(reflect.Type).Kind on an unknown type")
+		}
+		b, ok := iv.RT.Underlying().(*types.Basic)
+		if !ok {
+			x.fail("(reflect.Type).Kind of a non-basic type")
+		}
+		kinds := map[types.BasicKind]int64{types.Bool: 1, types.Int: 2, types.Int8: 3, types.Int16: 4, types.Int32: 5, types.Int64: 6, types.Uint: 7, types.Uint8: 8,
+			types.Uint16: 9, types.Uint32: 10, types.Uint64: 11, types.Uintptr: 12, types.Float32: 13, types.Float64: 14, types.String: 24}
+		k, ok := kinds[b.Kind()]
+		if !ok {
+			x.fail("(reflect.Type).Kind: unsupported kind")
+		}
+		return x.o.ConstI(IntTy{64, false}, k)
+	}
 	extSchemas["strings.TrimLeft"] = schemaTrimLeft
 	extSchemas["strings.Compare"] = schemaStringsCompare
 	extSchemas["(*sync.Mutex).Lock"] = schemaMutexLock
@@ -454,7 +482,8 @@ func schemaMul64(x *Exec, st *State, fn *ssa.Function, args []Val, c *ssa.CallCo
 	a, b := args[0].(*Term), args[1].(*Term)
 	if o.M.BV {
 		p := o.BVOp("bvmul", o.ZeroExt(64, a), o.ZeroExt(64, b))
-		return TupleVal{o.Extract(127, 64, p), o.Extract(63, 0, p)}
+		// (the low word of the 128-bit product is the 64-bit product)
+		return TupleVal{o.Extract(127, 64, p), o.BVOp("bvmul", a, b)}
 	}
 	p := o.Mul(a, b)
 	return TupleVal{o.Div(p, o.IntBig(two64)), o.Mod(p, o.IntBig(two64))}
